@@ -356,7 +356,7 @@ def v_lex_le(a, b):
 
 def lemma_next_backup_num(ctx):
     n_ent = 2 if ctx.tier == "quick" else 3
-    eng = ctx.engine("libxcp", loop_bound=3, timeout_s=1200)
+    eng = ctx.engine("libxcp", loop_bound=n_ent + 2, timeout_s=1200)
     install_backup_env(ctx, eng)
     st = State()
     b = View.fresh("base", 4, st, 1)
@@ -396,7 +396,7 @@ def lemma_next_backup_num(ctx):
     (ctx.passed if okn else ctx.fail)("witness: next_backup_num success path", "")
     # ---- the arithmetic on its own, over the whole u64 range (names of <= 10 characters cannot spell numbers near u64::MAX):
     # is_num_backup is replaced by "an arbitrary recognised number or none" per sibling
-    eng2 = ctx.engine("libxcp", loop_bound=3, timeout_s=600)
+    eng2 = ctx.engine("libxcp", loop_bound=n_ent + 4, timeout_s=600)
     install_backup_env(ctx, eng2)
     st2 = State()
     b2 = View.fresh("base", 4, st2, 1)
